@@ -188,6 +188,25 @@ Theorem C44_expired_session_never_authenticates :
 Proof. exact expired_session_never_authenticates. Qed.
 Print Assumptions C44_expired_session_never_authenticates.
 
+(** RenewSession(obj, t) re-reads the session by obj's id (Storage.RefreshSession): for a session
+    that has been signed out in the meantime, whose record has expired, or that never existed, it
+    fails and changes NOTHING - so a stale session object held by a caller (the middleware holds
+    one between its FindSession and its RenewSession) can never make the key valid again; together
+    with C44_expired_session_never_authenticates (the state is unchanged) the key stays refused. *)
+Theorem C44_renew_after_signout_fails :
+  forall C st k id s off, find_by_key C st k = Some (id, s) ->
+    let st1 := fst (sstep C st (ExpireSess C k)) in
+    sstep C st1 (RenewById C id off) = (st1, 4%N).
+Proof. exact renew_after_signout_fails. Qed.
+Print Assumptions C44_renew_after_signout_fails.
+
+Theorem C44_renew_expired_fails :
+  forall C st id s e0 off,
+    aget N.eqb id (sdat C st) = Some (s, e0) -> (e0 <= now C st)%Z ->
+    sstep C st (RenewById C id off) = (st, 4%N).
+Proof. exact renew_expired_fails. Qed.
+Print Assumptions C44_renew_expired_fails.
+
 (** ** 6. malformed / absent credentials are rejected *)
 Theorem C44_header_scheme :
   forall h t, get_token h = Some t -> get_token_spec h t.
